@@ -317,6 +317,25 @@ def merge_oracle(op, before, after):
         return 'links lost: neighbours %s expected, %s found' % (sorted(want), sorted(got))
     if not got <= want:
         return 'links invented'
+    # the surviving node's links carry only link properties: networkx's 'contraction' bookkeeping is gone, a link both
+    # nodes had keeps the caller's properties, a link only the other node had keeps its own
+    def link_props(snap, x, y):
+        for e in snap[1]:
+            if {e[0], e[1]} == {x, y}:
+                return e[2]
+        return None
+    for y in got:
+        now = link_props(after, u[0], y)
+        if any(kv[0] == sc.SPECIAL['contraction'] for kv in now):
+            return "a link of the merged node carries networkx's 'contraction' attribute"
+        mine_l = link_props(before, u[0], y) if y != u[0] else link_props(before, u[0], u[0])
+        if mine_l is not None:
+            if [kv for kv in mine_l if kv[0] != sc.SPECIAL['contraction']] != now:
+                return 'properties of a link of the surviving node changed'
+        elif y not in (u[0], v[0]):
+            theirs = link_props(before, v[0], y)
+            if theirs is not None and [kv for kv in theirs if kv[0] != sc.SPECIAL['contraction']] != now:
+                return 'a link taken over from the other node lost or changed its properties'
     mine, other = dict((a, b) for a, b in u[1]), dict((a, b) for a, b in v[1])
     now = [x for x in after[0] if x[0] == u[0]]
     if not now:
